@@ -27,9 +27,14 @@ Forget(S) == /\ known' = known \ S
 OamCells == {x \in known : x >= 65024 /\ x < 65184}
 Accessible(cls) == CASE cls = "vram" -> ~lcd [] cls \in {"oam", "void"} -> (~lcd /\ ~dma) [] OTHER -> TRUE
 
+\* A TIMA write is ignored in the reload cycle after an overflow (C12). This module does not follow the timer's
+\* cycles, so a written TIMA value is only remembered while TAC is known to have the timer switched off.
+TimerOff == 65287 \in known /\ (mem[65287] \div 4) % 2 = 0
+
 WriteStep(a, v) ==
    LET cls == Class(a)  c == Canon(a) IN
-   CASE cls \in {"wram", "hram", "ie", "plainreg", "timer", "dma"} -> Put(c, v) /\ UNCHANGED lcd /\ dma' = (dma \/ cls = "dma")
+   CASE a = 65285 /\ ~TimerOff -> Forget({c}) /\ UNCHANGED <<lcd, dma>>        \* TIMA with the timer running: see TimerOff
+     [] cls \in {"wram", "hram", "ie", "plainreg", "timer", "dma"} -> Put(c, v) /\ UNCHANGED lcd /\ dma' = (dma \/ cls = "dma")
      [] cls = "vram" -> (IF Accessible(cls) THEN Put(c, v) ELSE Forget({c})) /\ UNCHANGED <<lcd, dma>>
      \* an OAM access while the PPU scans may rewrite whole rows (the OAM bug, C17): nothing in OAM is known afterwards
      [] cls = "oam" -> (IF Accessible(cls) THEN Put(c, v) ELSE Forget(OamCells)) /\ UNCHANGED <<lcd, dma>>
